@@ -107,9 +107,17 @@ CHECKS = {
          "over gzip / deflate writers and through real Dispatch (trailing filter) + TLC trace validation (RespTrace) of the recorded returns",
          "The laws quantify over call sequences and fault positions: both are enumerated, not sampled, within the bounds; random sequences "
          "extend payload sizes and call kinds.", "6 C15", "Trusted: TLC, Json module, compress/*; the failing writer accepts a prefix and returns an error."),
+ "C16": ("TLC exhaustive model checking of MC_Entity (every sequence of request kinds against the state pooled gzip readers are left in, "
+         "capacities 0/1/2 and the sync.Pool bag; invariants HistoryIndependent / ReleasedOnce; NoReset and LeakOnError refuted) + replay of the "
+         "explored sequences on the real Request.ReadEntity with concrete seeded values written by the real entity writers + TLC trace "
+         "validation (EntityTrace): the outcome each body must have is computed by the specification from its kind alone",
+         "The HISTORY quantifier (what earlier requests left behind, error paths, providers) is decided by the model and replayed; the VALUE "
+         "quantifier (every value of the codecs' common domain) is encode/decode fidelity, outside what a TLA+ specification decides: it is "
+         "only sampled by the seeded values of the replay (DESIGN.md section 12).", "6 C16",
+         "Trusted: TLC, encoding/json, encoding/xml, compress/*, reflect.DeepEqual; value domain sampled; damage kinds with a certain error only."),
 }
 
-NOT_YET = "check under construction in this round; see DESIGN.md section 13 (build order)"
+NOT_YET = "not claimed"
 
 def main():
     checks = []
